@@ -26,15 +26,15 @@ import (
 )
 
 type c16Params struct {
-	Part   string          `json:"part"` // receiver | runonce | climit
-	Sc     *recvx.Scenario `json:"sc,omitempty"`
-	Seed   uint64          `json:"seed,omitempty"`
-	Native bool            `json:"native,omitempty"`
-	NInst  int             `json:"ninst,omitempty"`
-	Own    bool            `json:"own,omitempty"`     // the own instance name has snapshots too
-	Corrupt int            `json:"corrupt,omitempty"` // number of corrupt-only instances
-	Cleaned bool           `json:"cleaned,omitempty"` // one instance is cleaned away during start-up
-	Limit  int             `json:"limit,omitempty"`
+	Part    string          `json:"part"` // receiver | runonce | climit
+	Sc      *recvx.Scenario `json:"sc,omitempty"`
+	Seed    uint64          `json:"seed,omitempty"`
+	Native  bool            `json:"native,omitempty"`
+	NInst   int             `json:"ninst,omitempty"`
+	Own     bool            `json:"own,omitempty"`     // the own instance name has snapshots too
+	Corrupt int             `json:"corrupt,omitempty"` // number of corrupt-only instances
+	Cleaned bool            `json:"cleaned,omitempty"` // one instance is cleaned away during start-up
+	Limit   int             `json:"limit,omitempty"`
 }
 
 func C16() *runner.Property {
